@@ -3,7 +3,7 @@
 Require Extraction.
 Require Import ExtrOcamlBasic.
 From Coq Require Import Strings.Byte.
-From Sftp Require Import Base.GoSem Mode.FileMode Wire.Prim Wire.Packets Wire.ClientParse Srv.ReadOnly Srv.Negotiate Xfer.Transfer.
+From Sftp Require Import Base.GoSem Mode.FileMode Wire.Prim Wire.Packets Wire.ClientParse Srv.ReadOnly Srv.Negotiate Xfer.Transfer Path.Clean Err.Status Srv.ReqServer.
 Extraction Language OCaml.
 Extraction "model.ml"
   Byte.of_bits Byte.to_bits
@@ -14,4 +14,5 @@ Extraction "model.ml"
   client_safe parse_status_only parse_handle parse_attrs parse_name1 parse_readdir parse_statvfs parse_data read_chunk path_base
   gate ro_fixed may_mutate effects reading_request
   supported run_set recv_version has_extension ext_reaction sync_sends version_reply
-  readAt writeTo writeAt readFromSeq readFromConc readFrom_uses_conc readfrom_fixed writeto_fixed seek pattern chunks.
+  readAt writeTo writeAt readFromSeq readFromConc readFrom_uses_conc readfrom_fixed writeto_fixed seek pattern chunks
+  clean clean_with_base clean_path to_local_path status_code perm_fixed normalise dispatch realpath_default.
